@@ -26,14 +26,19 @@ def main():
     import c11_xcmp
     c11_xcmp.run(ck)
     ck.assume("a tool run is a function of its source if it never reads indeterminate memory and never depends on pointer values: decided parts are (L) every C05 shape executed with heap and stack objects "
-              "uninitialised - any indeterminate value reaching an emitted byte, a listing field, a branch or an address is reported; (K) the xcmp kernels named in c11_xcmp.py",
+              "uninitialised - any indeterminate value reaching an emitted byte, a listing field, a branch or an address is reported; (K) the xcmp kernels named in c11_xcmp.py; "
+              "(X) the WHOLE X compiler (harness/xfull.cpp: Lexer, Parser, CreateSymbols, ConstProp, OptimiseExpr, CodeGen, LowerDirectives, OptimiseDirectives, hexasm::CodeGen, emitProgramBin, listing fields - "
+              "Driver::run's stage sequence) executed by the engine on every program of a set (skeletons, a sixth of the generator's programs quick / all of them thorough, and programs the compiler accepts although "
+              "they are unusual: assignment to a val or a formal, unused and shadowed names, functions used as procedures, forward calls ...) with every heap and stack object indeterminate; the image the engine "
+              "obtains is compared byte for byte with the natively built xcmp's (validation of engine and stubs on every program)",
+              "X family models: std::istream::get/eof state, libc classifiers, strtoul, boost::format at its API (constructor, operator%, str()), operator new, rb-tree rebalancing as BST insertion; the program set is enumerated, not symbolic",
               "environment variables, ASLR and 'what was processed earlier in the same process' have no solver handle beyond this argument and are outside the claim",
               "cross-object pointer ordering comparisons observed by the engine are reported (none are expected: std::map keys are strings, not pointers)")
     if Lay is not None: pass
     ck.crosscheck()
     ck.finish("Symbolic 'memory sanitizer' over all immediates and all shapes: the engine allocates every heap and stack object uninitialised, tracks indeterminate values lazily and reports them "
               "when they reach an observable (emitted byte, listing field, branch, address). Kernels of xcmp where members without initialisers could be read before written are executed "
-              "from their real constructors with the reference semantics as oracle.")
+              "from their real constructors with the reference semantics as oracle; the whole compiler runs in the engine on a program set with the host's memory contents as the quantified input.")
 
 if __name__ == '__main__':
     from lib.report import guarded
